@@ -138,11 +138,19 @@ class RenderContext:
 
     def assign(self, key: str, val: Any) -> None:
         """Add or replace the context variable named _key_ with the value _val_."""
+        had_key = key in self.locals
+        previous = self.locals.get(key)
         self.locals[key] = val
         if (
             self.env.local_namespace_limit is not None
             and self.get_size_of_locals() > self.env.local_namespace_limit
         ):
+            # Rendering continues after this error in lax and warn modes, so don't
+            # keep hold of the value that took the namespace over its limit.
+            if had_key:
+                self.locals[key] = previous
+            else:
+                del self.locals[key]
             raise LocalNamespaceLimitError("local namespace limit reached", token=None)
 
     def get_size_of_locals(self) -> int:
